@@ -15,6 +15,10 @@ import Mathlib.Data.Nat.Factorial.Basic
 import Mathlib.Data.Int.GCD
 import Mathlib.Data.Matrix.Mul
 import Mathlib.Algebra.Group.MinimalAxioms
+import Mathlib.LinearAlgebra.Matrix.Trace
+import Mathlib.Data.Matrix.Block
+import Mathlib.LinearAlgebra.Matrix.Kronecker
+import Mathlib.Data.Complex.Basic
 
 namespace Numqi.C14
 open Numqi Numqi.FinGroup Numqi.Young
@@ -331,6 +335,88 @@ end leftRegular
 /-- the hypotheses are satisfiable: e.g. the quaternion group over ℤ, where `L` separates `i·j = k` from `j·i = -k` -/
 example : leftReg ℤ quatTable 8 (mulFin quatTable_isGroupTable 1 2) = leftReg ℤ quatTable 8 1 * leftReg ℤ quatTable 8 2 :=
   leftRegular_mul quatTable_isGroupTable 1 2
+
+/-! ## 6c. the algebra around `reduce_group_representation`
+
+The eigen-reduction itself is numerical (contract only, probed).  What follows from its contracts is proved here for any
+group table and any matrices satisfying them: characters of a representation are class functions; the matrix
+`F[(i,a,b), g] = c_i ρ_i(g)[a,b]` intertwines the left regular representation with `⊕_i ρ_i ⊗ 1_{d_i}` (only the
+homomorphism law is used); and if `F` is unitary on both sides — the two residuals the probe measures — then
+`Σ d_i² = |G|`. -/
+
+section irreps
+open Matrix
+variable {R : Type*} [CommRing R] {T : Table} {N : Nat}
+
+/-- a matrix representation of the group given by the table: `ρ(g·k) = ρ(g) ρ(k)` -/
+def IsRep (h : IsGroupTable T N) {d : Type*} [Fintype d] [DecidableEq d] (ρ : Fin N → Matrix d d R) : Prop :=
+  ∀ g k : Fin N, ρ (mulFin h g k) = ρ g * ρ k
+
+/-- **characters are class functions**: `χ(x g x⁻¹) = χ(g)` for every representation of the table's group
+(`y` is the inverse of `x`: `y·x = e`) -/
+theorem character_class_function (h : IsGroupTable T N) {d : Type*} [Fintype d] [DecidableEq d]
+    (ρ : Fin N → Matrix d d R) (hρ : IsRep h ρ) (e : Fin N) (he : ∀ i, i < N → entry T e.val i = i)
+    (g x y : Fin N) (hyx : mulFin h y x = e) :
+    trace (ρ (mulFin h (mulFin h x g) y)) = trace (ρ g) := by
+  have heg : mulFin h e g = g := Fin.ext (he g.val g.isLt)
+  rw [hρ, hρ, Matrix.trace_mul_cycle, ← hρ, hyx, ← hρ, heg]
+
+variable {ι : Type*} [Fintype ι] [DecidableEq ι] {d : ι → Type*} [∀ i, Fintype (d i)] [∀ i, DecidableEq (d i)]
+
+/-- the "Fourier" matrix built from a family of representations: row `(i,a,b)`, column `g`, entry `c_i · ρ_i(g)[a,b]` -/
+def fourier (c : ι → R) (ρ : ∀ i, Fin N → Matrix (d i) (d i) R) : Matrix (Σ i, d i × d i) (Fin N) R :=
+  fun x g => c x.1 * ρ x.1 g x.2.1 x.2.2
+
+/-- `⊕_i ρ_i(h) ⊗ 1_{d_i}`: every block repeated `d_i` times -/
+def blockRep (ρ : ∀ i, Fin N → Matrix (d i) (d i) R) (k : Fin N) : Matrix (Σ i, d i × d i) (Σ i, d i × d i) R :=
+  Matrix.blockDiagonal' fun i => Matrix.kroneckerMap (· * ·) (ρ i k) (1 : Matrix (d i) (d i) R)
+
+/-- **the Fourier matrix intertwines the left regular representation with `⊕ ρ_i ⊗ 1`** — from the homomorphism law
+alone: `F · L(k) = (⊕_i ρ_i(k) ⊗ 1_{d_i}) · F` for every `k` -/
+theorem fourier_intertwines (h : IsGroupTable T N) (c : ι → R) (ρ : ∀ i, Fin N → Matrix (d i) (d i) R)
+    (hρ : ∀ i, IsRep h (ρ i)) (k : Fin N) :
+    fourier c ρ * leftReg R T N k = blockRep ρ k * fourier c ρ := by
+  ext ⟨i, a, b⟩ g
+  rw [Matrix.mul_apply, Finset.sum_eq_single (mulFin h k g)]
+  · rw [leftReg_apply]
+    simp only [mulFin, if_true, mul_one]
+    rw [Matrix.mul_apply, Fintype.sum_sigma, Finset.sum_eq_single i]
+    · simp only [blockRep, Matrix.blockDiagonal'_apply_eq, fourier, Fintype.sum_prod_type, Matrix.kroneckerMap_apply,
+        Matrix.one_apply]
+      have := congrFun (congrFun (hρ i k g) a) b
+      simp only [mulFin] at this
+      rw [this, Matrix.mul_apply, Finset.mul_sum]
+      refine Finset.sum_congr rfl fun a' _ => ?_
+      rw [Finset.sum_eq_single b]
+      · simp; ring
+      · intro b' _ hb'; simp [Ne.symm hb']
+      · intro hb; exact absurd (Finset.mem_univ _) hb
+    · intro j _ hj
+      simp [blockRep, Matrix.blockDiagonal'_apply_ne _ _ _ (Ne.symm hj)]
+    · intro hi; exact absurd (Finset.mem_univ _) hi
+  · intro x _ hx
+    rw [leftReg_apply]
+    have : ¬ x.val = entry T k.val g.val := fun e => hx (Fin.ext e)
+    simp [this]
+  · intro hne; exact absurd (Finset.mem_univ _) hne
+
+/-- a rectangular matrix that is unitary on both sides is square (trace argument) -/
+theorem card_eq_of_unitary {K : Type*} [Fintype K] [DecidableEq K] (F : Matrix K (Fin N) ℂ)
+    (h1 : F * Fᴴ = 1) (h2 : Fᴴ * F = 1) : Fintype.card K = N := by
+  have e1 : trace (F * Fᴴ) = (Fintype.card K : ℂ) := by rw [h1, Matrix.trace_one]
+  have e2 : trace (Fᴴ * F) = (N : ℂ) := by rw [h2, Matrix.trace_one]; simp
+  rw [Matrix.trace_mul_comm, e2] at e1
+  exact_mod_cast e1.symm
+
+/-- **`Σ d_i² = |G|`** from the two measured hypotheses `F F† = 1` (Schur orthogonality of the blocks) and `F† F = 1`
+(completeness): together with `fourier_intertwines`, `F` is then a unitary equivalence between the left regular
+representation and the direct sum in which block `i` occurs `d_i` times; comparing traces at the identity gives the count. -/
+theorem sum_sq_dims_eq_order (F : Matrix (Σ i, d i × d i) (Fin N) ℂ)
+    (h1 : F * Fᴴ = 1) (h2 : Fᴴ * F = 1) : ∑ i, Fintype.card (d i) ^ 2 = N := by
+  rw [← card_eq_of_unitary F h1 h2, Fintype.card_sigma]
+  exact Finset.sum_congr rfl fun i _ => by rw [Fintype.card_prod, sq]
+
+end irreps
 
 /-! ## 6b. partitions: the recurrence of `get_sym_group_num_irrep` and the Young-diagram array, all `N` -/
 
